@@ -354,7 +354,7 @@ pub fn history_from_index(mut idx: usize, len: usize, al: &[Ev]) -> Vec<Ev> {
 }
 
 pub fn hist_json(cfg: &SrvCfg, h: &[Ev]) -> Value {
-    json!({"batch_size": cfg.batch_size, "fault": cfg.fault, "client_stats": cfg.client_stats, "events": h.iter().map(|e| e.name()).collect::<Vec<_>>()})
+    json!({"batch_size": cfg.batch_size, "fault": cfg.fault, "client_stats": cfg.client_stats, "health": cfg.health, "events": h.iter().map(|e| e.name()).collect::<Vec<_>>()})
 }
 
 /// canonical abstract state of a finished history, for the `states` count only
@@ -438,6 +438,46 @@ pub fn run(ctx: &Ctx) -> Result<(), String> {
             }
         }
     }
+
+    // the same histories one level shallower under the server's other documented modes: per-client
+    // statistics, a health-check port, fault injection at its maximum (replies then need not verify,
+    // but there is still exactly one per accepted request, to its sender), and all three together
+    let modes_n = AtomicU64::new(0);
+    {
+        let d2 = depth - 1;
+        let modes: Vec<SrvCfg> = vec![
+            SrvCfg { batch_size: 2, client_stats: true, ..Default::default() },
+            SrvCfg { batch_size: 2, health: true, ..Default::default() },
+            SrvCfg { batch_size: 2, fault: 50, ..Default::default() },
+            SrvCfg { batch_size: 3, client_stats: true, health: true, fault: 50, ..Default::default() },
+        ];
+        for cfg in &modes {
+            let n = al.len().pow(d2 as u32);
+            par_for(n, 64, |idx, _| {
+                let h = history_from_index(idx, d2, &al);
+                let mut srv = match Srv::new(cfg) {
+                    Ok(s) => s,
+                    Err(e) => {
+                        *failed.lock().unwrap() = Some(e);
+                        return;
+                    }
+                };
+                let mut obs = run_events(&mut srv, &h, 2, false);
+                let vs = judge(&mut obs, &lt_pk, cfg.fault > 0);
+                modes_n.fetch_add(1, Relaxed);
+                hist_n.fetch_add(1, Relaxed);
+                transitions.fetch_add(h.len() as u64 + 2, Relaxed);
+                replies.fetch_add(obs.received.iter().map(|r| r.len() as u64).sum::<u64>(), Relaxed);
+                for (clause, class, msg) in vs {
+                    ctx.violation(&clause, "responder", &format!("{}/client_stats={} health={} fault={}", class, cfg.client_stats, cfg.health, cfg.fault), json!({"kind":"events","history":hist_json(cfg, &h),"message":msg}));
+                }
+            });
+            if let Some(e) = failed.lock().unwrap().take() {
+                return Err(e);
+            }
+        }
+    }
+    ctx.cov("histories_in_other_server_modes", json!(modes_n.load(Relaxed)));
 
     // mid-step arrivals: prefix (<= 2 events) + one step during which a request arrives at a hook
     // point (after poll returned / after the socket was seen empty / after the replies were sent)
@@ -619,7 +659,7 @@ pub fn replay_case(c: &Value) -> Result<Option<String>, String> {
         return Err("replay of this case kind: re-run the check".into());
     }
     let h = &c["history"];
-    let cfg = SrvCfg { batch_size: h["batch_size"].as_u64().ok_or("batch_size")? as u8, fault: h["fault"].as_u64().unwrap_or(0) as u8, client_stats: h["client_stats"].as_bool().unwrap_or(false), ..Default::default() };
+    let cfg = SrvCfg { batch_size: h["batch_size"].as_u64().ok_or("batch_size")? as u8, fault: h["fault"].as_u64().unwrap_or(0) as u8, client_stats: h["client_stats"].as_bool().unwrap_or(false), health: h["health"].as_bool().unwrap_or(false), ..Default::default() };
     let evs: Vec<Ev> = h["events"].as_array().ok_or("events")?.iter().filter_map(|e| Ev::parse(e.as_str()?)).collect();
     let lt_pk = crypto::public_key(&cfg.seed);
     crate::util::on_named_thread("worker-0", || {
